@@ -274,3 +274,72 @@ func H_C17_stack() {
 	verifrt.Assert(s.Size() == 0, "Stack not empty after all elements were popped")
 	verifrt.Cover("popped")
 }
+
+// H_C17_stack_waiters: several goroutines wait for the stack to become empty (or to shrink below a
+// threshold); one removal through Pop or PopOrWait must release all of them.
+//
+//verif:h prop=C17 preempt=2/3 cover=released runs=5000000 timeout=250/2400 steps=300000
+func H_C17_stack_waiters() {
+	s := NewStack[int]()
+	s.Push(1)
+	var wg sync.WaitGroup
+	wg.Add(3)
+	for k := 0; k < 2; k++ {
+		below := verifrt.Choose("below", 2) == 1
+		go func() {
+			defer wg.Done()
+			verifrt.MustFinish()
+			if below {
+				s.WaitSizeIsBelow(1)
+			} else {
+				s.WaitIsEmpty()
+			}
+		}()
+	}
+	viaPopOrWait := verifrt.Choose("popOrWait", 2) == 1
+	go func() {
+		defer wg.Done()
+		verifrt.MustFinish()
+		if viaPopOrWait {
+			s.PopOrWait(func() bool { return true })
+		} else {
+			s.Pop()
+		}
+	}()
+	wg.Wait()
+	verifrt.Cover("released")
+	verifrt.Assert(s.Size() == 0, "Stack not empty after the element was popped")
+}
+
+// H_C17_counter_waiters: two goroutines wait on the same Counter condition; one update releases both.
+//
+//verif:h prop=C17 preempt=2/3 cover=released runs=5000000 timeout=250/2400 steps=300000
+func H_C17_counter_waiters() {
+	c := NewCounter()
+	c.Set(1)
+	above := verifrt.Choose("above", 2) == 1
+	var wg sync.WaitGroup
+	wg.Add(3)
+	for k := 0; k < 2; k++ {
+		go func() {
+			defer wg.Done()
+			verifrt.MustFinish()
+			if above {
+				c.WaitIsAbove(1)
+			} else {
+				c.WaitIsZero()
+			}
+		}()
+	}
+	go func() {
+		defer wg.Done()
+		verifrt.MustFinish()
+		if above {
+			c.Increase()
+		} else {
+			c.Decrease()
+		}
+	}()
+	wg.Wait()
+	verifrt.Cover("released")
+}
